@@ -2,7 +2,7 @@
 //! configure (G2) → solve through the CLI path → replay with O1 → report the issues of one property.
 
 use crate::pragen::{GenCfg, PragProblem, generate};
-use crate::replay::{PProblem, Report, check_relation_vehicles, check_relations_have_tours, replay_parsed};
+use crate::replay::{PProblem, Report, replay_parsed};
 use crate::rng::{Rng, mix};
 use crate::run::{Run, clip, par_for};
 use crate::solverun::*;
@@ -140,11 +140,7 @@ pub fn solve_and_replay(problem: Arc<Problem>, gp: &PragProblem, config: &Value)
                 Err(e) => return CaseOutcome::ReplayErr(format!("O1 cannot parse the problem: {e}"), solution),
             };
             match replay_parsed(&parsed, &solution) {
-                Ok(mut report) => {
-                    check_relations_have_tours(&parsed, &solution, &mut report);
-                    check_relation_vehicles(&parsed, &solution, &mut report);
-                    CaseOutcome::Done(SolveResult { solution, report })
-                }
+                Ok(report) => CaseOutcome::Done(SolveResult { solution, report }),
                 Err(e) => CaseOutcome::ReplayErr(e, solution),
             }
         }
